@@ -145,6 +145,19 @@ theorem restore_resumes (keep : Bool) (shards runners : Nat) (as : List Act) (c 
   have := step_log keep s .start
   simpa [step] using this
 
+/-- **Recovery resumes the sources from the cut the operators restore.** For every history of completed checkpoints
+(snapshot write finished at once or still in flight), late publications and (re)deployments — including a publication
+that lands between `assembly.Deploy` and `sourceSplitter.Start` — every (re)start either restores nothing and assigns
+no cursor, or deploys the operators with a checkpoint id and assigns the split with the position the runner reported
+for exactly that id (ids are unique). -/
+theorem job_resumes_restored_cut (as : List JAct) :
+    ((jrun {} as).1.reported.map (·.1)).Nodup ∧
+    ∀ o ∈ (jrun {} as).2, o = (none, none) ∨ ∃ c ∈ (jrun {} as).1.reported, o = (some c.1, some c.2) :=
+  ⟨(jrun_inv as {} ⟨by simp, by simp, by simp, by simp⟩).nodup, jrun_obs as {} ⟨by simp, by simp, by simp, by simp⟩⟩
+
+example : (jrun {} [.start false, .ckpt 10 false, .ckpt 20 true, .start true, .start false]).2 =
+    [(none, none), (some 1, some 10), (some 2, some 20)] := by decide
+
 /-! ### non-vacuity and the open finding -/
 
 /-- a small stream: shard 0 → 2,3; shard 1 → 4,5; later shard 2 → 6,7 -/
